@@ -74,11 +74,20 @@ JudgeC08(t) ==
         got9 == \E i \in Idx(t) : t.events[i].ev = "DeliverIn" /\ t.events[i].n = 9
     IN  IF s.event = "peerBad" /\ ~got9 /\ ~t.final.isClosed THEN {<<"C08", "receive-loop-blocked-after-odd-frame", s.k>>} ELSE {}
 
+\* C06, websocket side: while the connection stays open nothing handed to it is refused or lost, however slow the transport is
+JudgeC06(t) ==
+    LET s == t.script
+        settled == First(t, {"Settled"})
+        S == {i \in Starts(t) : settled = 0 \/ i < settled}
+    IN  IF s.event # "slowWrite" THEN {}
+        ELSE {<<"C06", "message-refused-on-an-open-connection", Res(t, i)>> : i \in {i \in S : Res(t, i) # "ok"}}
+             \cup {<<"C06", "accepted-message-never-reached-the-peer">> : i \in {i \in S : Res(t, i) = "ok" /\ RecvOf(t, i) = {}}}
+
 Init == l = 0
 Next == /\ l < Len(Trace)
         /\ l' = l + 1
         /\ LET t == Trace[l + 1]
-           IN  \A k \in JudgeC12(t) \cup JudgeC13(t) \cup JudgeC08(t) :
+           IN  \A k \in JudgeC12(t) \cup JudgeC13(t) \cup JudgeC08(t) \cup JudgeC06(t) :
                   PrintT(<<"MON", ToJson([id |-> t.id, i |-> 0, key |-> k, kf |-> {}])>>)
 Spec == Init /\ [][Next]_l
 Done == TLCGet("stats").diameter = Len(Trace) + 1
